@@ -322,8 +322,9 @@ def check(ctx):
                        P.loc(f, n), n)
     ctx.require("C01.h", "out-of-place splices", nt, 3)
     # ---------------- (i) index lemmas by modular arithmetic
-    from . import c01_lemmas
+    from . import c01_lemmas, c01_tables
     c01_lemmas.check(ctx, rt)
+    c01_tables.check(ctx, rt)
     ctx.assume("torch.cat / gather / scatter / roll / index assignment implement their documented semantics; index assignment casts to the storage dtype")
     ctx.assume("the stored pointer is a residue in [0, recordsz) (established by initialize/reset = 0 and preserved by incr/decr/align: L3, C01.c)")
 
